@@ -320,6 +320,11 @@ func FieldProv(v ssa.Value) string {
 		if call, ok := x.Tuple.(*ssa.Call); ok {
 			return fmt.Sprintf("%s()#%d", lastSeg(ShortCallee(&call.Call)), x.Index)
 		}
+		if lk, ok := x.Tuple.(*ssa.Lookup); ok && x.Index == 0 {
+			return FieldProv(lk)
+		}
+	case *ssa.Lookup:
+		return FieldProv(x.X) + "[" + FieldProv(x.Index) + "]"
 	case *ssa.Call:
 		var args []string
 		if x.Call.IsInvoke() {
